@@ -60,6 +60,11 @@ def _case(draw):
     table = draw(progs.tables(min_rows=2, max_rows=8))
     scan = draw(progs.scans(table))
     prog = draw(progs.programs(table, kinds=("b", "b", "b", "assign", "when", "se", "print", "print"), max_comps=4, depth=2, or_mode=False))
+    if draw(st.booleans()):
+        # a selective decider so that the matched set is usually a proper subset
+        nrec = len(table["records"])
+        ids = draw(st.lists(st.integers(0, nrec), min_size=1, max_size=4, unique=True))
+        prog["comps"].append(["f", "in", [], [["h", "id"], ["t", "|".join(f"r{i}" for i in ids)]]])
     nf = draw(st.sampled_from([0, 1, 2, 2, 3, 3, 4]))
     keys = draw(st.lists(st.sampled_from(KEYS), min_size=nf, max_size=nf, unique=True))
     fields = [[k, draw(_value())] for k in keys]
